@@ -107,6 +107,7 @@ class Origins:
         self.body = body
         self.memo = {}
         self.arg_depth = arg_depth
+        self.phi_sites = {}
         self.mut_locals = self._mut_borrowed()
         self.alias = {}
         base = baseline_params().get(body.name)
@@ -260,11 +261,13 @@ class Origins:
             return self._var(local, rest)
         if len(ds) > 1:
             outs = []
+            sites = []
             for d in ds:
                 o = self._def(d, rest, depth, stack)
                 if o == ("unknown", "infeasible"):
                     continue
                 outs.append(o)
+                sites.append((o, d[1]))
             if not outs:
                 return ("unknown", "infeasible")
             if any(_has_cycle(o) for o in outs) or len(outs) > 6:
@@ -275,7 +278,13 @@ class Origins:
                     uniq.append(o)
             if len(uniq) == 1:
                 return uniq[0]
-            return ("phi", tuple(uniq))
+            ph = ("phi", tuple(uniq))
+            # where each alternative is assigned (block ids), for rules that decide "value v on the edges of condition c"
+            lst = self.phi_sites.setdefault(ph, [])
+            for x in sites:
+                if x not in lst:
+                    lst.append(x)
+            return ph
         return self._def(ds[0], rest, depth, stack)
 
     def _def(self, d, rest, depth, stack):
